@@ -3,6 +3,7 @@ from engine import effects
 from engine import guards as G
 from engine import mir
 from . import common as K
+from . import detectors as D
 from .common import A, fshort
 
 EXPLANATION = (
@@ -23,6 +24,7 @@ EX = A + "execution::"
 
 
 def check(run):
+    D.ob_state_mutations(run, "O20.4", ['execution::DummyExecution', 'execution::BlockExec'], 'block execution records are written once per block and folded in order')
     prog = run.program("lib")
 
     # ------------------------------------------------------------------ O20.1
